@@ -429,6 +429,19 @@ def fam_stats(rng, layout, d, i):
     for opt, kw in (("plain", {}), ("calcerr", dict(calcerr=True)), ("sdev", dict(sdev=True)), ("calcerr+sdev", dict(calcerr=True, sdev=True)),
                     ("inputmean", dict(inputmean=5.0, sdev=True))):
         guard("wmom", {"arr": x, "weights": w}, lambda: stat.wmom(x, w, **kw), opt)
+    # the "masked entry" convention: non-finite data at positions whose weight is exactly zero
+    xm0, wm0 = x0.copy(), w0.copy()
+    km = rng.integers(0, n, size=max(1, n // 4))
+    wm0[km] = 0.0
+    xm0[km] = rng.choice([np.nan, np.inf, -np.inf], size=km.size)
+    Lm = layout if layout not in ("int", "i4-swapped") else "native"
+    xm, wm = lay(xm0, Lm), lay(wm0, Lm)
+    with np.errstate(all="ignore"):
+        for opt, kw in (("plain", {}), ("calcerr+sdev", dict(calcerr=True, sdev=True)), ("inputmean", dict(inputmean=5.0, sdev=True))):
+            guard("wmom", {"arr": xm, "weights": wm}, lambda: stat.wmom(xm, wm, **kw), opt + ",masked-nonfinite")
+        guard("wmedian", {"arr": xm, "weights": wm}, lambda: stat.wmedian(xm, wm), "masked-nonfinite")
+        guard("sigma_clip", {"arr": xm, "weights": wm}, lambda: stat.sigma_clip(xm, weights=wm, silent=True), "masked-nonfinite")
+        guard("get_stats", {"arr": xm, "weights": wm}, lambda: stat.get_stats(xm, weights=wm), "masked-nonfinite")
     xn0 = rng.normal(size=(n, 3))
     xn = lay(xn0, layout if layout in ("native", "swapped", "f4", "f4-swapped", "ro", "int", "i4-swapped") else "native")
     wn = lay(np.abs(xn0) + .1, layout if layout in ("native", "swapped", "f4", "ro") else "native")
@@ -548,6 +561,26 @@ def fam_wcs(rng, layout, d, i):
             for find in (True, False):
                 guard("WCS.sky2image", {"lon": lon, "lat": lat}, lambda: w.sky2image(lon, lat, distort=dist, find=find), "%s,distort=%s,find=%s" % (kind, dist, find))
         guard("WCS.get_jacobian", {"x": x, "y": y}, lambda: w.get_jacobian(x, y), kind)
+        # the lower-level public steps of the same conversions
+        guard("WCS.image2sph", {"x": x, "y": y}, lambda: w.image2sph(x, y), kind)
+        guard("WCS.ApplyCDMatrix", {"x": x, "y": y}, lambda: w.ApplyCDMatrix(x, y), kind)
+        guard("WCS.ApplyCDMatrix", {"x": x, "y": y}, lambda: w.ApplyCDMatrix(x, y, inverse=True), kind + ",inverse")
+        for inv in (False, True):
+            guard("WCS.Distort", {"x": x, "y": y}, lambda: w.Distort(x, y, inverse=inv), "%s,inverse=%s" % (kind, inv))
+        guard("WCS.sph2image", {"lon": lon, "lat": lat}, lambda: w.sph2image(lon, lat), kind)
+        for rev in (False, True):
+            guard("WCS.Rotate", {"lon": lon, "lat": lat}, lambda: w.Rotate(lon, lat, reverse=rev), "%s,reverse=%s" % (kind, rev))
+    # differences of longitudes outside [-180, 180] (what the function exists to wrap), some non-finite
+    d0 = rng.uniform(-900, 900, size=n)
+    if n > 2:
+        d0[0], d0[1] = (np.nan if layout not in ("int", "i4-swapped") else -540.0), 180.0     # (nan -> INT_MIN never wraps)
+    dra = lay(d0, layout)
+    guard("wrap_ra_diff", {"dra": dra}, lambda: wcsutil.wrap_ra_diff(dra))
+    d00 = lay(d0[-1:], layout if layout in ("native", "swapped", "f4", "f4-swapped", "int", "i4-swapped") else "native").reshape(())
+    guard("wrap_ra_diff", {"dra": d00}, lambda: wcsutil.wrap_ra_diff(d00), "0-d")
+    pa = lay(rng.normal(size=(3, 3)), layout if layout in ("native", "swapped", "f4", "ro") else "native")
+    px, py = lay(rng.uniform(-1, 1, size=n), layout), lay(rng.uniform(-1, 1, size=n), layout)
+    guard("Apply2DPolynomial", {"a": pa, "x": px, "y": py}, lambda: wcsutil.Apply2DPolynomial(pa, px, py))
     hdr_arr = np.zeros(1, dtype=[(k, "f8") if not isinstance(v, str) else (k, "U12") for k, v in wcs_header(rng, "tan").items()])
     for k, v in wcs_header(rng, "tan").items():
         hdr_arr[k] = v
